@@ -150,7 +150,7 @@ def run(chk):
     chk.rule = ("model checking: all dof-to-rank overlap hypergraphs for 3 ranks x 3 dofs (thorough also 4 ranks) x all interleavings and "
                 "message arrival orders of the synchronisation protocol; replay: every decomposition of <= 3 global dofs on 1..4 (thorough 6) real "
                 "MPI ranks x forced neighbour processing orders (hook H4), comparing frequencies, sync_0, sync_1, dot, norm, global dof count and "
-                "the distributed matrix-vector product exactly (tolerance only where a dof has 3 sharers: 1/3 is not dyadic); non-trivial = "
+                "the distributed matrix-vector product exactly (tolerance only where the number of sharers of a dof is not a power of two: 1/3, 1/5, 1/6 are not dyadic); non-trivial = "
                 ">= 2 ranks with a shared dof")
     chk.assumptions = ["gate-level cases are built directly from the decomposition (mirrors in ascending global dof order); the control layer (partitioning, "
                        "gate/muxer assembly, multi-layered hierarchies) is exercised through the poisson application runs only",
